@@ -24,6 +24,7 @@ from ..concretize import p64, u64, z64, norm
 from .storage import METAS, meta_name, diff, _Blocked
 
 ALIASES = {'AbortFailed': 'Abort', 'AbortVoted': 'Abort', 'CheckCurrentQ': 'CheckCurrent', 'WrongQ': 'Wrong',
+           'StoreQ': 'Store', 'UndoQ': 'Undo',
            'NewOidQ': 'NewOid', 'PackQ': 'Pack', 'PushQ': 'Push', 'PopQ': 'Pop'}
 # concrete storage kind -> kind of the model ('temp': the demo storage creates its own changes, a MappingStorage)
 KINDS = {'file': 'file', 'mapping': 'mapping', 'fileblob': 'file', 'temp': 'mapping'}
